@@ -348,6 +348,8 @@ CRC = z3.Function('crc32', BytesSort, IntSort)
 def _encrypt_gcm(ip, key, iv, aad, data):
     used(ip, 'AES-GCM idealised: enc/dec_ok/dec uninterpreted; dec_ok(k,iv,aad,enc(k,iv,aad,p)) and dec(..)=p; '
              'dec_ok(k,iv,aad,c) => c = enc(k,iv,aad,dec(k,iv,aad,c)); len(enc(..,p)) = len(p)+16')
+    if aad is None:
+        aad = b''            # AESGCM: no associated data
     k, i, a, d = ops.term(key), ops.term(iv), ops.term(aad), ops.term(data)
     ct = ENC(k, i, a, d)
     ops.set_len_term(ct, ops.blen(d) + 16)
@@ -363,6 +365,8 @@ def _decrypt_gcm(ip, key, iv, aad, data):
              'dec_ok(k,iv,aad,c) => c = enc(k,iv,aad,dec(k,iv,aad,c)); len(enc(..,p)) = len(p)+16')
     if ops.pytype(key) != 'bytes' or ops.pytype(data) != 'bytes':
         ip.ctx.raise_exc('TypeError', 'decrypt_gcm arguments')
+    if aad is None:
+        aad = b''            # AESGCM: no associated data
     k, i, a, d = ops.term(key), ops.term(iv), ops.term(aad), ops.term(data)
     ok = DEC_OK(k, i, a, d)
     if not ip.ctx.branch(ops.sbool(ok)):
